@@ -911,8 +911,8 @@ class SyncState:  # pylint: disable=too-many-instance-attributes, too-many-publi
             if ent[side].changed or ent[OTHER_SIDE[side]].changed:
                 self._changeset_storage.add(ent)
         else:
-            # ent without oid doesn't go in changeset
-            if ent[side].changed and not ent[OTHER_SIDE[side]].changed:
+            # ent without oid doesn't go in changeset, unless the other side has a change of its own to sync
+            if not (ent[OTHER_SIDE[side]].changed and ent[OTHER_SIDE[side]].oid):
                 self._changeset_storage.discard(ent)
 
     def lookup_creation(self, content_hash, side):
